@@ -1,5 +1,5 @@
 (* Proofs about Model/PoolAcct.v: for a pool that counts a one-way stream exactly when it listens to it, after EVERY history
-   the gauge equals the number of admitted-and-not-finished counted requests (never negative, zero when all are finished),
+   the gauge equals the number of accepted-and-not-finished counted requests (never negative, zero when all are finished),
    the Requests resource likewise, and every increment is matched by exactly one decrement. *)
 From Coq Require Import List ZArith Bool Arith Lia.
 From Coq Require Import ZifyBool ZifyNat.
